@@ -28,7 +28,8 @@ PROFILE = {"n_states": (2, 5), "n_events": (1, 3), "extra_transitions": (1, 6), 
 
 
 def owns(rule, flags):
-    return rule.startswith("C03.")
+    # after an injected failure the processing discipline must still hold for the following sends
+    return rule.startswith("C03.") or bool(flags.get("after_failure"))
 
 
 def make_case(rng, i):
@@ -37,6 +38,9 @@ def make_case(rng, i):
     case = F.basic_case(rng, prof, hist=(3, 10), drivers=("sync", "inloop"), p_unknown=0.02,
                         async_modes=("none", "none", "all", "half"))
     case["send_budget"] = rng.choice([3, 6, 10])
+    if rng.random() < 0.15:
+        # one injected failure (Exception or BaseException, e.g. cancellation) somewhere in the history
+        case["faults"] = [{"at": rng.randint(1, 25), "when": "after_sends", "exc": rng.choice(["plain", "base", "base"])}]
     return case
 
 
